@@ -95,11 +95,12 @@ def requests(cfg, rng, n, tier, part, nparts, st):
             # some bnum digits equal to the division chunk base r^p of this digit size (or a neighbour / another power of r): the running
             # quotient then has a digit equal to the divisor of the short division
             p = chunk_power(cfg, r) if r & (r - 1) else 1
+            pf = max(1, len(to_digits(cfg.B - 1, r)) - 1) if r & (r - 1) else 1     # the largest power of the radix in a whole digit
             v = 0
             for i in range(cfg.n):
                 c = rng.random()
                 if c < 0.35:
-                    d = (r ** rng.choice((p, p, max(1, p - 1), 1))) + rng.choice((-1, 0, 0, 0, 1))
+                    d = (r ** rng.choice((p, p, pf, pf, max(1, p - 1), 1))) + rng.choice((-1, 0, 0, 0, 1))
                 elif c < 0.5:
                     d = 0
                 elif c < 0.65:
